@@ -39,16 +39,31 @@ def _cvc5_check(smt2, timeout_s):
         os.unlink(path)
 
 
-def solve_one(hyps, goal, timeout_ms=10000, use_cvc5=True, seed=0):
-    """returns dict(status= discharged|refuted|unknown, backend, seconds, model)"""
-    t0 = time.time()
+EMATCH = {"smt.mbqi": False, "smt.auto_config": False}     # pure E-matching: no model-based instantiation
+
+
+def _z3_check(hyps, goal, timeout_ms, seed, cfg):
     s = z3.Solver()
     s.set("timeout", timeout_ms)
     s.set("random_seed", seed)
+    for k, v in (cfg or {}).items():
+        s.set(k, v)
     for h in hyps:
         s.add(h)
     s.add(z3.Not(goal))
-    r = s.check()
+    return s, s.check()
+
+
+def solve_one(hyps, goal, timeout_ms=10000, use_cvc5=True, seed=0, prefer_ematch=False):
+    """returns dict(status= discharged|refuted|unknown, backend, seconds, model).
+    `unsat` under any solver configuration is a proof; with prefer_ematch the E-matching-only configuration (which
+    cannot answer `sat` for quantified queries) is tried first with a short budget, then the default one."""
+    t0 = time.time()
+    if prefer_ematch:
+        s, r = _z3_check(hyps, goal, min(timeout_ms, 5000), seed, EMATCH)
+        if r == z3.unsat:
+            return {"status": "discharged", "backend": "z3", "seconds": time.time() - t0, "model": None}
+    s, r = _z3_check(hyps, goal, timeout_ms, seed, None)
     dt = time.time() - t0
     if r == z3.unsat:
         return {"status": "discharged", "backend": "z3", "seconds": dt, "model": None}
@@ -60,6 +75,13 @@ def solve_one(hyps, goal, timeout_ms=10000, use_cvc5=True, seed=0):
         # path infeasible, so the obligation fails (no model: quantified hypotheses)
         return {"status": "refuted", "backend": "z3", "seconds": dt, "model": None,
                 "reason": "engine-evaluated clause is false on a path the solver cannot prove infeasible"}
+    if not prefer_ematch:
+        # second configuration of the same solver: E-matching only (default auto-configuration can diverge in
+        # model-based instantiation on list-building invariants that pure E-matching closes at once)
+        t1 = time.time()
+        s2, r2 = _z3_check(hyps, goal, min(timeout_ms, 5000), seed, EMATCH)
+        if r2 == z3.unsat:
+            return {"status": "discharged", "backend": "z3", "seconds": dt + time.time() - t1, "model": None}
     if use_cvc5:
         try:
             smt2 = s.to_smt2().replace("(check-sat)", "")
@@ -78,7 +100,7 @@ def solve_one(hyps, goal, timeout_ms=10000, use_cvc5=True, seed=0):
             "model": None, "reason": reason}
 
 
-def discharge(ob, timeout_ms=10000, use_cvc5=True):
+def discharge(ob, timeout_ms=10000, use_cvc5=True, prefer_ematch=False):
     """solve one Obligation (conjuncts separately); returns result dict with 'name'"""
     parts = split_conj(ob.goal)
     total = 0.0
@@ -86,7 +108,7 @@ def discharge(ob, timeout_ms=10000, use_cvc5=True):
     for g in parts:
         if z3.is_true(z3.simplify(g)):
             continue
-        r = solve_one(ob.hyps, g, timeout_ms, use_cvc5)
+        r = solve_one(ob.hyps, g, timeout_ms, use_cvc5, prefer_ematch=prefer_ematch or bool(ob.info.get("prefer_ematch")))
         total += r["seconds"]
         backends.add(r["backend"])
         if r["status"] != "discharged":
